@@ -10,7 +10,8 @@
 (* The property invariants of Props.tla are checked on every state.        *)
 (***************************************************************************)
 EXTENDS Props
-CONSTANTS MaxLines, Mode, MaxErrs
+CONSTANTS MaxLines, Mode, MaxErrs,
+          PrefixIdx       \* menu indices of a fixed prefix put before every enumerated sequence
 Menu == JsonDeserialize("menu.json")
 
 VARIABLES vToks,    \* history: the tokens delivered to the builder (a function of the input; adds no states)
@@ -18,7 +19,7 @@ VARIABLES vToks,    \* history: the tokens delivered to the builder (a function 
 mvars == <<vLines, vLine, vPs, vToks, vEvents>>
 
 Init == /\ vToks = <<>> /\ vEvents = <<>>
-        /\ vLines \in { [j \in 1..Len(c) |-> Menu[c[j]]] : c \in UNION { [1..m -> 1..Len(Menu)] : m \in 0..MaxLines } }
+        /\ vLines \in { [j \in 1..Len(PrefixIdx \o c) |-> Menu[(PrefixIdx \o c)[j]]] : c \in UNION { [1..m -> 1..Len(Menu)] : m \in 0..MaxLines } }
         /\ vLine = 1
         /\ vPs = InitParse("en", 0, CapOf(Mode))
 Next == /\ GParseLine
@@ -60,4 +61,5 @@ Inv_C14 == vPs.done => P_C14_Once(vPs.bs.errs)
 Inv_C18 == /\ (Acc => P_C18_Accepted(vLines, vToks))
            /\ (vPs.done => P_C18_Partition(vLines, vToks, vPs.bs.errs, vPs.bs.cap))
 Constraint == Emit /\ Bound
+NoPrefixIdx == <<>>
 =============================================================================
